@@ -284,3 +284,12 @@ package putsvc
 //@   loop 3 invariant acked(0) == 0
 //@   loop 4 invariant acked(0) == 0
 //@   loop 5 invariant [owed_plus_acknowledged_is_max_replicas] maxReplicas > 0 ==> wide(leftReplicas) + wide(acked(0)) == wide(maxReplicas)
+
+// ---- C22 (callers of the node order in the put service): the order in which the nodes of an
+// EC rule are tried for a part - while storing it and when the part is handed to the
+// post-placement replicator - is NodeSequenceForPart for that part, the rule's number of parts
+// and the length of the rule's node list, in this order of arguments.
+//@ callrule c22_put_asks_the_order_for_its_part_and_node_list in ecNodesForPart, (*distributedTarget).distributeECPart
+//@   property C22
+//@   callee ec.NodeSequenceForPart
+//@   requires [order_for_this_part_over_this_node_list] a0 == partIdx && a1 == totalParts && a2 == len(nodeList)
